@@ -176,7 +176,11 @@ def split_params(fid):
 
 def is_out_type(t):
     t = t.strip()
+    if t.endswith('&&'):
+        return False
     if not (t.endswith('*') or t.endswith('&')):
+        return False
+    if t.endswith('const &') or t.endswith('const&'):
         return False
     core = t[:-1].strip()
     if core.startswith('const ') and not core.endswith('*'):
@@ -498,6 +502,17 @@ class Analysis:
         bl = self.loc(base, st)
         self.event(nid, ('index', bl, it, e.get('l', 0), base.get('t') if isinstance(base, dict) else None))
 
+    def ev_arg(self, e, st, nid):
+        """value of a call argument; a container passed as a whole carries the values of its cells"""
+        v = self.ev(e, st, nid)
+        if isinstance(e, dict) and e.get('k') in ('var', 'mem'):
+            l = self.loc(e, st)
+            if l is not None:
+                kids = sorted(set(val for k2, val in st.env.items() if k2[0] in ('e', 'f') and k2[1] == l))
+                if kids:
+                    return self.T.mk('agg', v, *kids)
+        return v
+
     def ev_bin(self, e, st, nid):
         T = self.T
         op = e['op']
@@ -708,7 +723,7 @@ class Analysis:
             self.event(nid, ('call', f, tuple(args), line, fid))
             return T.mk('sym', 'void')
         if (f.startswith('tmcg_mpz_shash') or f in ('tmcg_h', 'tmcg_g')) and aex:
-            args = tuple(self.ev(a, st, nid) for a in aex)
+            args = tuple(self.ev_arg(a, st, nid) for a in aex)
             self.event(nid, ('call', f, args, line, fid))
             self.event(nid, ('hash', f, args, line, e.get('va')))
             l = self.loc(aex[0], st)
@@ -717,7 +732,7 @@ class Analysis:
                 self.write(l, val, st)
                 self.event(nid, ('write', l, val, line))
             return T.mk('sym', 'void')
-        args = tuple(self.ev(a, st, nid) for a in aex)
+        args = tuple(self.ev_arg(a, st, nid) for a in aex)
         self.event(nid, ('call', f, args, line, fid))
         if e.get('f') == '?':
             return T.mk('callr', '?', *args)
@@ -732,7 +747,7 @@ class Analysis:
         short = f.split('::')[-1]
         o = e.get('o')
         ov = self.ev(o, st, nid) if isinstance(o, dict) else T.mk('sym', 'noobj')
-        args = tuple(self.ev(a, st, nid) for a in e['a'])
+        args = tuple(self.ev_arg(a, st, nid) for a in e['a'])
         fid = e.get('fid', '')
         line = e.get('l', 0)
         ol = self.loc(o, st) if isinstance(o, dict) else None
@@ -1210,9 +1225,10 @@ class Analysis:
         self.gen = gen
         self.estab = estab
         for h in reversed(cfg.rpo):
-            if h.kind != 'loophead' or not cfg.loops[h.id].get('iv') or h.id not in univ:
+            if h.kind != 'loophead' or not cfg.loops[h.id].get('iv'):
                 continue
-            res = self.local_must(h, lambda f, h=h: T.op(f) == 'all' and h.id in T.node(f)[1])
+            res = self.local_must(h, lambda f: True)
+            res = frozenset(f for f in (res or ()) if T.op(f) == 'all' and h.id in T.node(f)[1])
             if res:
                 estab[h.id] = res
         changed = True
@@ -1233,7 +1249,7 @@ class Analysis:
                     o = fout.get((p.id, i))
                     if o is None:
                         continue
-                    cur = o if cur is None else (cur & o)
+                    cur = o if cur is None else self.join_facts(cur, o)
                     if n.kind == 'loophead' and self.is_back(p, n):
                         back.append(o)
                 if cur is None:
@@ -1249,12 +1265,91 @@ class Analysis:
                 for i in range(len(n.succ)):
                     g = gen.get((n.id, i))
                     if g is not None:
-                        fout[(n.id, i)] = cur | g
+                        # an edge whose condition contradicts a fact that already holds is infeasible
+                        # (correlated repetitions of one test, e.g. the challenge bit tested twice)
+                        if n.kind == 'branch' and any(self.neg_fact(f) in cur for f in g):
+                            fout.pop((n.id, i), None)
+                            continue
+                        fout[(n.id, i)] = self.activate(cur | g)
         for nid, st in self.instate.items():
             st.facts = fin.get(nid, frozenset())
         for k, st in self.edge_out.items():
             st.facts = fout.get(k, frozenset())
         self.fact_rounds = rounds
+
+    def join_facts(self, A, B):
+        """intersection, plus implications c -> F for a condition c that holds on one side while its
+        negation holds on the other (keeps the correlation of a test that is repeated later, e.g.
+        the challenge bit of a cut-and-choose round)"""
+        T = self.T
+        common = A & B
+        ra, rb = A - common, B - common
+        if not ra or not rb or len(ra) > 10 or len(rb) > 10:
+            return common
+        extra = set()
+        for c in ra:
+            nc = self.neg_fact(c)
+            if nc == -1 and T.op(c) == 'all':
+                # both polarities of one test inside one iteration carry the same loop tag
+                inner = self.neg_fact(T.node(c)[2])
+                nc = T.mk('all', T.node(c)[1], inner) if inner != -1 else -1
+            if nc in rb:
+                for F in ra:
+                    if F != c and T.op(F) != 'if':
+                        extra.add(self.mk_if(c, F))
+                for F in rb:
+                    if F != nc and T.op(F) != 'if':
+                        extra.add(self.mk_if(nc, F))
+        return common | extra if extra else common
+
+    def mk_if(self, c, F):
+        T = self.T
+        n = T.node(F)
+        cn = T.node(c)
+        if cn[0] == 'all':
+            # condition about the current index: the implication is quantified like the condition
+            if n[0] == 'all':
+                if T.node(n[2])[0] == 'if':
+                    return F
+                return T.mk('all', tuple(sorted(set(cn[1]) | set(n[1]))), T.mk('if', cn[2], n[2]))
+            return T.mk('all', cn[1], T.mk('if', cn[2], F))
+        if n[0] == 'all':
+            inner = T.node(n[2])
+            if inner[0] == 'if':
+                return F
+            return T.mk('all', n[1], T.mk('if', c, n[2]))
+        return T.mk('if', c, F)
+
+    def activate(self, fs):
+        T = self.T
+        add = None
+        for f in fs:
+            n = T.node(f)
+            if n[0] == 'if':
+                if n[1] in fs and n[2] not in fs:
+                    if add is None:
+                        add = set()
+                    add.add(n[2])
+            elif n[0] == 'all':
+                inner = T.node(n[2])
+                if inner[0] == 'if' and inner[1] in fs:
+                    g = T.mk('all', n[1], inner[2])
+                    if g not in fs:
+                        if add is None:
+                            add = set()
+                        add.add(g)
+        return fs | add if add else fs
+
+    def neg_fact(self, f):
+        T = self.T
+        n = T.node(f)
+        if n[0] == 'rel':
+            return self.rel(NEG[n[1]], n[2], n[3])
+        if n[0] == 'truthy':
+            return T.mk('falsy', n[1])
+        if n[0] == 'falsy':
+            return T.mk('truthy', n[1])
+        return -1
 
     def local_must(self, h, keep):
         """facts (filtered by keep) generated on every path from loop head h to its back edges
@@ -1283,7 +1378,7 @@ class Analysis:
                     for (p, i) in n.preds:
                         o = lout.get((p.id, i))
                         if o is not None:
-                            cur = o if cur is None else cur & o
+                            cur = o if cur is None else self.join_facts(cur, o)
                     if cur is None:
                         continue
                     if n.kind == 'loophead':
@@ -1295,7 +1390,10 @@ class Analysis:
                 for i, sx in enumerate(n.succ):
                     g = gen.get((n.id, i))
                     if g is not None:
-                        lout[(n.id, i)] = cur | frozenset(f for f in g if keep(f))
+                        if n.kind == 'branch' and any(self.neg_fact(f) in cur for f in g):
+                            lout.pop((n.id, i), None)
+                            continue
+                        lout[(n.id, i)] = self.activate(cur | frozenset(f for f in g if keep(f)))
         res = None
         for (p, i) in h.preds:
             if self.is_back(p, h) and (p.id, i) in gen:
